@@ -130,6 +130,10 @@ let handle l =
       let extra = str_of_tok spc in
       let sp c = ascii_space c || List.mem c extra in
       tok_of_str (emit sp (dec_doc (make_reader rest)))
+  | "clauses" :: rest ->
+      (match doc_clauses (dec_doc (make_reader rest)) with
+       | [] -> "-"
+       | l -> String.concat "," (List.map (fun n -> string_of_int (int_of_n n)) l))
   | "echo" :: rest -> enc_doc (dec_doc (make_reader rest))
   | ["nq"; s] -> bool_tok (needs_quotes (str_of_tok s))
   | ["emitstr"; f; s] -> tok_of_str (emit_str (tok_bool f) (str_of_tok s))
